@@ -23,7 +23,7 @@ Print Assumptions C13_tx_iff_resolved.
 Theorem C13_accepted_all_checked : forall strict cfg orc req t,
   set_resolve strict cfg orc req = Ok t ->
   exists over0, get_overrides (r_ext req) = Ok over0 /\
-    forall o, In o (ops_of req) -> op_admitted cfg orc (r_prefix req) over0 o.
+    forall o, In o (ops_of req) -> op_passes cfg orc (r_prefix req) over0 o.
 Proof. exact accepted_all_checked. Qed.
 Print Assumptions C13_accepted_all_checked.
 
@@ -67,6 +67,15 @@ Theorem C13_refused_delete_not_in_model : forall strict cfg orc req over0 p pl,
   forall t, set_resolve strict cfg orc req <> Ok t.
 Proof. exact refused_delete_not_in_model. Qed.
 Print Assumptions C13_refused_delete_not_in_model.
+
+Theorem C13_refused_delete_bad_index_value : forall strict cfg orc req over0 p pl n v,
+  get_overrides (r_ext req) = Ok over0 -> In (RDel p) (ops_of req) ->
+  resolve_target cfg over0 (etgt (r_prefix req) (RDel p)) = Ok pl ->
+  find_path_from_model (effective_path (r_prefix req) p) (pl_rw pl) false = FoundPrefix ->
+  In (n, v) (extract_index_names (effective_path (r_prefix req) p)) -> index_value_ok v = false ->
+  forall t, set_resolve strict cfg orc req <> Ok t.
+Proof. exact refused_delete_bad_index_value. Qed.
+Print Assumptions C13_refused_delete_bad_index_value.
 
 Theorem C13_key_contradiction_refused : forall strict cfg orc req over0 u pl e tv,
   get_overrides (r_ext req) = Ok over0 -> In (RUpd u) (ops_of req) ->
